@@ -42,6 +42,6 @@ PROPERTY = {
         "single-task discipline of Connection::router: reader/writer/orphaner only touch the map between awaits on one task, so every schedule is a sequence of allocate/orphan/lookup calls (stated reduction, not proved)",
         "request ids unique per connection (AtomicU64 fetch_add generator) — precondition of allocate",
     ],
-    "assumptions": [],
+    "assumptions": ["the extractor's enumerate-iter-mut desugaring of StreamIdSet::allocate's loop header (cross-checked by the Kani harnesses on the compiled original)", "vstd axioms for u64::trailing_ones / trailing_zeros"],
     "not_covered": ["write coalescing / socket ordering / cross-task races of OrphanhoodNotifier drop", "Connection::reader calling lookup only with stream >= 0 (caller obligation)"],
 }
